@@ -360,6 +360,14 @@ impl Child {
         self.clean_stale_locks(at);
         match content_of_storage(self.ram.clone(), self.idf) {
             Ok(c) => {
+                if c != self.last_ok && self.attempts.iter().any(|a| *a == c) {
+                    // a complete attempted commit (its commit() returned Err before meta.json was
+                    // written) has been published after all — `end_merge` saves the committed
+                    // register: from now on this is the state of the index
+                    self.count("attempted-commit-published-later");
+                    self.last_ok = c.clone();
+                    self.attempts.clear();
+                }
                 let ok = if self.policy_b && self.writer_errored {
                     true // after an unrecovered error only the commit-time rule applies (policy B)
                 } else {
